@@ -397,6 +397,78 @@ impl<T> SchedMutex<T> {
     }
 }
 
+// ------------------------------------------------------------------------------------------------------------------
+// Adoption of threads created by the code under test (added for C14: vicinal's worker threads).
+//
+// The task that is about to create a thread calls [`adopt_child`] (it holds the token, so the registration is ordered
+// with everything else); the new thread calls [`ChildToken::attach`] first thing and [`detach`] last thing.  Between the
+// two it is an ordinary task: it parks at every scheduling point, shows up in `Report`, counts for deadlock detection,
+// and `Exec::run` only reports `Completed` once it has detached.  The executor never joins adopted threads (the code
+// under test owns their join handles).
+
+/// Registration of a thread that the calling task is about to create.
+pub struct ChildToken {
+    shared: Arc<Shared>,
+    id: usize,
+}
+
+/// Registers a new task for a thread the calling task is about to create.  `None` if the caller is not a task.
+pub fn adopt_child(name: &str) -> Option<ChildToken> {
+    with_current(|sh, me| {
+        let mut st = sh.st.lock().unwrap_or_else(|e| e.into_inner());
+        let id = st.tasks.len();
+        // deterministic priority for PCT derived from the parent's
+        let pr = st.tasks[me].priority.wrapping_mul(0x9E37_79B9_7F4A_7C15).wrapping_add(id as u64);
+        st.tasks.push(TaskInfo { name: name.to_string(), status: Status::Runnable, pending_op: "start".into(), panicked: None, priority: pr });
+        st.since_spin.push(true);
+        ChildToken { shared: Arc::clone(sh), id }
+    })
+}
+
+impl ChildToken {
+    /// Index of the adopted task (as used in `Strategy::Script` and `Report`).
+    pub fn id(&self) -> usize {
+        self.id
+    }
+
+    /// Called on the new thread before anything else: parks until the scheduler grants the first step.
+    pub fn attach(self) {
+        let ChildToken { shared, id } = self;
+        CURRENT.with(|c| *c.borrow_mut() = Some((Arc::clone(&shared), id)));
+        let mut st = shared.st.lock().unwrap_or_else(|e| e.into_inner());
+        while st.current != Some(id) {
+            st = shared.cv.wait(st).unwrap_or_else(|e| e.into_inner());
+        }
+    }
+}
+
+/// Called on an adopted thread as its last action: the task is finished and the token is released.
+pub fn detach() {
+    let cur = CURRENT.with(|c| c.borrow_mut().take());
+    if let Some((sh, id)) = cur {
+        let mut st = sh.st.lock().unwrap_or_else(|e| e.into_inner());
+        st.tasks[id].status = Status::Finished;
+        st.tasks[id].pending_op = "finished".into();
+        if st.current == Some(id) {
+            st.current = None;
+        }
+        sh.cv.notify_all();
+    }
+}
+
+/// Has task `id` of the caller's executor finished?  `None` if the caller is not a task.
+pub fn task_finished(id: usize) -> Option<bool> {
+    with_current(|sh, _| {
+        let st = sh.st.lock().unwrap_or_else(|e| e.into_inner());
+        st.tasks.get(id).map(|t| t.status == Status::Finished).unwrap_or(true)
+    })
+}
+
+/// Yields once as blocked on `reason` (for hook tables whose `blocked` callback re-tests the condition itself).
+pub fn yield_blocked(reason: &str) {
+    with_current(|sh, me| yield_with(sh, me, Status::Blocked(reason.to_string()), reason));
+}
+
 #[cfg(test)]
 mod tests {
     use super::*;
